@@ -172,7 +172,7 @@ pub fn user_op(g: &mut Gen, model: &Model, c: usize) -> Op {
                 let u = g.rng.pick(&non_root).clone();
                 let current = model.users.get(&u.0).and_then(|m| m.perms.clone());
                 let perms = match current {
-                    Some(current) if g.rng.chance(g.cfg.revocation_chance) => {
+                    Some(current) if !g.in_probe && g.rng.chance(g.cfg.revocation_chance) => {
                         // revocation arm: take one grant away, keep the rest, and let the user's open
                         // connections try at once what the old record allowed
                         for c2 in 1..g.cfg.clients {
